@@ -79,6 +79,7 @@ type node struct {
 	ctx    context.Context
 	cancel context.CancelFunc
 	e      *tmengine.Engine
+	bare   *bareEnv // set: the state machine alone, the harness plays the mirror (smbare.go)
 	startErr string
 
 	initCh chan tmdriver.InitChainRequest
@@ -430,6 +431,10 @@ func (n *node) start() {
 	n.timers = nil
 	n.startErr = ""
 	n.t("start", "", 0, 0, "", "")
+	if n.bare != nil {
+		n.startBare()
+		return
+	}
 
 	w := n.w
 	wd, wctx := gwatchdog.NewNopWatchdog(n.ctx, discardLog)
@@ -494,6 +499,10 @@ func (n *node) start() {
 }
 
 func (n *node) stop() {
+	if n.bare != nil {
+		n.stopBare()
+		return
+	}
 	n.cancel()
 	synctest.Wait()
 	if n.e != nil && n.startErr == "" {
